@@ -56,7 +56,8 @@ DESIGN_MC = {
     "C01": [("Schemes.tla", "Schemes.cfg", "Schemes: fold/split, stereo, fixed, LPC lemmas; complete block-size / sample-rate / UTF-8 code spaces")],
     "C03": [("EncoderSeq.tla", "EncoderSeq.cfg", "EncoderSeq: InfoTruth over every length 0..10, fault and bad-block scenario (BS=3)")],
     "C04": [("EncoderSeq.tla", "EncoderSeq.cfg", "EncoderSeq: InfoBounds over every length 0..10 (BS=3, MinBS=2)")],
-    "C09": [("EncoderChoice.tla", "EncoderChoice.cfg", "EncoderChoice: the subframe / stereo decision rules never exceed verbatim / independent, pick a minimum, are monotone in the switches (all sizes 0..6)")],
+    "C09": [("EncoderChoice.tla", "EncoderChoice.cfg", "EncoderChoice: the subframe / stereo decision rules never exceed verbatim / independent, pick a minimum, are monotone in the switches (all sizes 0..6)"),
+            ("EncoderChoice.tla", "EncoderLadder.cfg", "EncoderChoice: the ladder law of the fixed-predictor order selection holds for every cost assignment (sizes 0..3)")],
 }
 
 
@@ -101,7 +102,7 @@ def choice_conformance(tier, seed, res):
     for e in summ["errors"][:5]:
         print(f"MODEL-DIVERGENCE property=C09 decision-rule case={e['id']} encode failed: {e['what'][:200]}")
     res.coverage["decision_rule_conformance"] = dict(
-        blocks=summ["cases"], stereo=summ["stereo"], subframe=summ["sub"], runs=8 * summ["cases"], distinct_outcome_patterns=summ["classes"],
+        blocks=summ["cases"], stereo=summ["stereo"], subframe=summ["sub"], fixed_order_ladders=summ.get("ladder", 0), runs=8 * summ["cases"], distinct_outcome_patterns=summ["classes"],
         accepted_by_TraceChoice=len(verdicts) - div, diverged=div, encode_errors=len(summ["errors"]),
         note="conformance of the decision rules, not a listed property; never a VIOLATION")
     res.coverage["states"] += states
